@@ -193,7 +193,7 @@ def run(rep, tier):
     rep.floor('configurations of List', tl.get('List', 0), 100)
     shared.driver_memo_per_call(rep)
     found, stats, nmods = routes.run(rep, 'C05', ['LOCAL-shadow', 'LOCAL-let-scope', 'PY-in-place', 'C05-', 'C14-field-tables',
-                                                   'ARG-captures'])
+                                                   'ARG-captures', 'ARG-key-complete'])
     rep.floor('generated classes examined', stats['classes'], 12)
     freevar_protocol(rep)
     reference_pass_order(rep)
